@@ -23,6 +23,7 @@ type frame struct {
 	symVis  map[*ssa.BasicBlock]int
 	result  Value
 	harness bool
+	own     int
 }
 
 type deferred struct {
@@ -145,6 +146,9 @@ func (t *Thread) interpret(fn *ssa.Function, args []Value, env []Value) (result 
 	defer func() {
 		t.depth--
 		t.fr = savedFr
+		if !fr.harness {
+			e.fnOwn[fn] += fr.own
+		}
 		if normal {
 			return
 		}
@@ -187,6 +191,7 @@ func (t *Thread) runBlock(fr *frame) {
 	b := fr.block
 	for _, ins := range b.Instrs {
 		e.steps++
+		fr.own++
 		if e.steps > e.eng.cfg.StepBudget {
 			panic(pathAbort{"budget", "instruction budget exceeded"})
 		}
